@@ -368,14 +368,14 @@ fn counters() -> (u64, u64) {
     })
 }
 
-fn work_pending(w: &World) -> bool {
+pub fn work_pending(w: &World) -> bool {
     w.is_ingesting()
         || with_state(|s| ic_btc_canister::unstable_blocks::peek(&s.unstable_blocks).is_some())
 }
 
 /// Feeds one reply through heartbeats: ingestion rounds first (as the heartbeat insists),
 /// then the fetching round, then the processing round.
-fn feed(w: &mut World, blocks: Vec<Vec<u8>>, next: Vec<Vec<u8>>) -> Result<(), String> {
+pub fn feed(w: &mut World, blocks: Vec<Vec<u8>>, next: Vec<Vec<u8>>) -> Result<(), String> {
     let mut guard = 0;
     while work_pending(w) {
         w.heartbeat_with(None, None)?;
@@ -389,7 +389,7 @@ fn feed(w: &mut World, blocks: Vec<Vec<u8>>, next: Vec<Vec<u8>>) -> Result<(), S
     Ok(())
 }
 
-fn absorb(w: &mut World, candidates: &[bitcoin::Block]) {
+pub fn absorb(w: &mut World, candidates: &[bitcoin::Block]) {
     let tree = w.tree_hashes();
     let mut progress = true;
     while progress {
